@@ -35,6 +35,9 @@ def gen_case(rng, i):
     T = rng.choice([1, 2, 3, 7, 50, 100, 200, 500, 999, 1000, 1001, 4999, 10000, rng.randrange(1, 10001), rng.randrange(1, 10001)])
     if kind == "big":
         T = rng.choice([10000, 9999, 65535, 100000]); N = rng.choice([16, 17, 20, 0])
+    reliable = rng.random() < 0.12        # stun_timer_start_reliable (STUN over TCP / TURN-TCP): the N = 0 schedule, a single transmission
+    if reliable:
+        N = 0
     s0 = rng.choice([0, 1, 5, 1000, 86400 * 365, rng.randrange(0, 4 * 10 ** 9)])
     u0 = rng.choice([0, 1, 999, 1000, 500000, 999000, 999001, 999999, rng.randrange(0, 10 ** 6)])
     if kind == "carry":
@@ -61,16 +64,16 @@ def gen_case(rng, i):
             delay = delay // 2 if retr == N - 1 else delay * 2
             retr += 1
             dl = p + delay * 1000
-    toks = ["c%d" % i, str(T), str(N), str(s0), str(u0)]
+    toks = ["c%d" % i, str(T), "R" if reliable else str(N), str(s0), str(u0)]
     for p in polls:
         toks += [str(p // 10 ** 6), str(p % 10 ** 6)]
-    return " ".join(toks), kind
+    return " ".join(toks), kind + ("-reliable" if reliable else "")
 
 
 def oracle(line, out):
     """The property, checked on the implementation's output alone."""
     t = line.split()
-    T, N = int(t[1]), int(t[2])
+    T, N = int(t[1]), 0 if t[2] == "R" else int(t[2])
     if not (1 <= T <= 10000 and 0 <= N <= 16):
         return None
     start = int(t[3]) * 10 ** 6 + int(t[4])
@@ -131,7 +134,8 @@ def run(chk):
     if model and impl:
         n = 4000 if chk.tier == "quick" else 120000
         corpus = [("k0 100 3 5 999500 6 98499 6 99500 6 299500 6 300000 6 398499 9 100000", "corpus"),
-                  ("k1 1000 0 0 0 0 999999 1 0 5 0", "corpus"), ("k2 1 16 10 999999 11 0 11 1000 11 1001 11 3000", "corpus")]
+                  ("k1 1000 0 0 0 0 999999 1 0 5 0", "corpus"), ("k2 1 16 10 999999 11 0 11 1000 11 1001 11 3000", "corpus"),
+                  ("k3 7900 R 5 0 12 899000 12 900000 16 850000 20 0", "corpus"), ("k4 200 R 0 999999 1 199998 1 199999 1 300000 9 0", "corpus")]
         cases = corpus + [gen_case(chk.rng, i) for i in range(n)]
         vlib.correspond(chk, cases, model, impl, oracle=oracle, what="timer", nontrivial=nontrivial)
     # agent level: every connectivity check on a black-holed pair is transmitted exactly stun-max-retransmissions times, on schedule
